@@ -7,7 +7,7 @@ use tvh::backends::{with_backend, Backend, ViewFn};
 use tvh::conv::{materialize, OutElem};
 use tvh::engine::{fail, main_for, sub, CheckResult, Fail, Obs, Property, Tier};
 use tvh::gen::{backend_strategy, idx, len_strategy, raw_series, series_of, InT, Series};
-use tvh::fuzzable::{check_pipeline, collectors, hint_law_bi, hint_law_fwd, PCase, POp};
+use tvh::fuzzable::{check_pipeline, collectors, hint_law_bi, hint_law_fwd, hint_law_upper, PCase, POp};
 
 // NOTE: this file imports the tevec prelude; `Iterator::` methods that the prelude shadows
 // (sum, max, min, any, all, first, last, count) are always called with explicit paths here.
@@ -197,6 +197,48 @@ fn check_fills(c: &ACase, obs: &mut Obs) -> CheckResult {
         one!("vclip", d.titer().vclip(lo.clone(), hi.clone()));
         Ok(())
     })
+}
+
+/// The std adaptors the library marks as trusted-length (scan, zip, chain, step_by, enumerate, take,
+/// rev, repeat_n): each one, and a library consumer of its announced length stacked on top (vshift,
+/// the trusted collectors), must yield exactly what is announced.
+fn check_std_adaptors(c: &ACase, obs: &mut Obs) -> CheckResult {
+    let v: Vec<f64> = materialize(&c.x);
+    let len = v.len();
+    let w: Vec<f64> = v.iter().take(c.k.min(len + 2)).map(|x| x + 0.5).collect();
+    let (lag, fill) = (c.n, c.fill);
+    macro_rules! one {
+        ($name:expr, $mk:expr) => {{
+            let h = hint_law_upper($name, || $mk, c.pops)?;
+            let safe: Vec<f64> = Iterator::collect($mk);
+            if safe.len() != h {
+                return fail(format!("{}:hint!=count", $name), format!("{} announces {} and yields {}", $name, h, safe.len()));
+            }
+            if TrustedLen::len(&$mk) != h {
+                return fail(format!("{}:len()", $name), format!("{}: TrustedLen::len() = {}, the iterator yields {}", $name, TrustedLen::len(&$mk), h));
+            }
+            // a consumer that sizes its output from the announced length
+            let h2 = hint_law_upper(&format!("{}.vshift", $name), || ($mk).vshift(lag, fill), c.pops)?;
+            if h2 != h {
+                return fail(format!("{}.vshift:length-not-preserved", $name), format!("vshift over {} announces {} items for {}", $name, h2, h));
+            }
+            collectors($name, || $mk, h)?;
+        }};
+    }
+    one!("scan", v.titer().scan(0.0f64, |a, x| {
+        *a += if x.is_nan() { 0.0 } else { x };
+        Some(*a)
+    }));
+    one!("zip", v.titer().zip(w.titer()).map(|(a, b)| a + b));
+    one!("chain", v.titer().chain(w.titer()));
+    one!("step_by", v.titer().step_by(1 + c.k % 4));
+    one!("enumerate", v.titer().enumerate().map(|(i, x)| x + i as f64));
+    one!("take", v.titer().take(c.k));
+    one!("rev", v.titer().rev());
+    one!("repeat_n.chain", std::iter::repeat_n(1.5f64, c.k % 5).chain(v.titer()));
+    one!("range.map", (0..c.k).map(|i| i as f64));
+    obs.set_nontrivial(len >= 2 && c.k >= 1);
+    Ok(())
 }
 
 struct TiterB<'c> {
@@ -464,6 +506,7 @@ fn main() {
     p.add(sub("rolling_custom_iter", 4000, 100000, a_case, check_rolling_iter));
     p.add(sub("winsorize_vcut", 4000, 100000, a_case, check_winsorize_cut));
     p.add(sub("pipeline", 12000, 600000, p_case, check_pipeline));
+    p.add(sub("std_adaptors_marked_trusted", 4000, 100000, a_case, check_std_adaptors));
     p.add(sub("range_linspace", 6000, 200000, g_case, check_generators));
     main_for(p);
 }
